@@ -50,7 +50,7 @@ def run(prop, tier, seed):
             stages.append(st2)
             n = "C02_cm.cfg"
             g = [{"module": "MC_ClassModel.tla", "cfg": n, "workers": 4,
-                  "opts": {"kinds": classmodel.KINDS["K14"], "classes": ["A", "B"], "nontrivial": "rejected"},
+                  "opts": {"kinds": classmodel.KINDS["K14"], "bases": {"A": [], "B": ["A"]}, "nontrivial": "rejected"},
                   "extra_defs": {n: classmodel.cfg("Cl2", "K14", "A02", 3 if quick else 4, 2, True)}}]
             stages.append(pipeline.replay_stage(g, "classmodel", {"tolerate": [e["tag"] for e in core.KnownFindings("C14").open]},
                                                 scratch, 2400, name="replay_classmodel"))
@@ -59,7 +59,7 @@ def run(prop, tier, seed):
             n = "C02_td.cfg"
             g = [{"module": "MC_TimeDyn.tla", "cfg": n, "workers": 8, "simulate": 300 if quick else 5000, "depth": 12, "seed": seed,
                   "extra_defs": {n: timedyn.cfg(8, 2, True)}}]
-            stages.append(pipeline.replay_stage(g, "timedyn", {"gens": {"1": "A", "2": "B", "3": "A"}, "insts": {"1": 1, "2": 1, "3": 2},
+            stages.append(pipeline.replay_stage(g, "timedyn", {"gens": {"1": "A", "2": "B", "3": "A", "4": "K"}, "insts": {"1": 1, "2": 1, "3": 2, "4": 2},
                                                                "nontrivial": "rejected"}, scratch, 900, name="replay_dynamic_generators"))
         th.join()
     if prop == "C08":
